@@ -228,7 +228,20 @@ func callBudgetOf(call string) uint64 {
 			b = x
 		}
 	}
-	return b
+	return b * budgetX()
+}
+
+// budgetX: the first time a call exceeds its step budget the worker only reports it as "stuck"; the driver re-runs the
+// spec alone with ten times the budget (VERIF_BUDGET_X=10) before it concludes anything - the same two-step rule as for
+// the wall-clock watchdog. (A call can legitimately need far more steps than in a fresh process when other callers
+// keep evicting what it caches: refactoring rH needed more than 30x for one fortune digest under five evicting tasks.)
+func budgetX() uint64 {
+	if v := os.Getenv("VERIF_BUDGET_X"); v != "" {
+		if n, err := strconv.ParseUint(v, 10, 64); err == nil && n >= 1 {
+			return n
+		}
+	}
+	return 1
 }
 
 type oracleViolation struct{ v spec.Violation }
@@ -245,6 +258,9 @@ func fromSim(r *simrt.Result, out *spec.Result) {
 	if r.Violation != nil {
 		out.Status = "violation"
 		out.Violation = &spec.Violation{Class: r.Violation.Class, Key: r.Violation.Key, Detail: r.Violation.Detail}
+		if r.Violation.Class == "NO_PROGRESS" && budgetX() == 1 {
+			out.Status = "stuck" // a suspicion: the driver confirms it alone, with ten times the budget
+		}
 	} else if r.Internal != "" {
 		out.Status = "internal"
 		out.Internal = r.Internal
@@ -258,6 +274,9 @@ func simConfig(s *spec.Spec, logPath string) simrt.Config {
 		Seed: s.Seed ^ uint64(s.Run)*0x9e3779b97f4a7c15, Policy: s.Config.Policy, SwitchP: s.Config.SwitchP,
 		PCTDepth: s.Config.PCTDepth, PCTSpan: s.Config.PCTSpan, Targeted: s.Config.Targeted,
 		StallP: s.Config.StallP, StepCap: s.Config.StepCap, LogPath: logPath,
+	}
+	if c.StepCap == 0 && budgetX() > 1 {
+		c.StepCap = 600_000_000 * budgetX()
 	}
 	c.Faults.Stall = s.Config.Faults.Stall
 	if s.Decisions != nil {
